@@ -16,6 +16,8 @@ import Mathlib.Algebra.Order.Ring.Pow
 import Mathlib.Data.List.Forall2
 import Mathlib.Algebra.BigOperators.Group.List.Basic
 import Mathlib.Data.List.Perm.Basic
+import Mathlib.Algebra.Order.Field.Power
+import Mathlib.Tactic.NormNum
 
 namespace Coba.C20
 
@@ -1399,5 +1401,245 @@ end
 
 theorem floatMul_exact (u : Rat) (h0 : 0 ≤ u) : FloatMul u ratMul :=
   ⟨fun a => by simp [ratMul], fun a b => ⟨0, by linarith, h0, by simp [ratMul]⟩⟩
+
+/-! ## Part 11 (phase 3): exact float products on dyadic inputs -/
+
+/-- degree-graded exact multiplication: `P k x` says "x is a product of k inputs that is still exactly
+representable"; the unit has degree 0 and multiplying two such numbers of total degree ≤ D is exact -/
+def Graded (P : Nat → Rat → Prop) (D : Nat) (fmul : Rat → Rat → Rat) : Prop :=
+  P 0 1 ∧ ∀ a b x y, P a x → P b y → a + b ≤ D → fmul x y = x * y ∧ P (a + b) (x * y)
+
+section
+variable {P : Nat → Rat → Prop} {D : Nat} {fmul : Rat → Rat → Rat}
+
+theorem monoProd_graded (hg : Graded P D fmul) :
+    ∀ c : List Rat, (∀ v ∈ c, P 1 v) → c.length ≤ D →
+      monoProd fmul 1 c = monoProd ratMul 1 c ∧ P c.length (monoProd ratMul 1 c) := by
+  intro c
+  induction c with
+  | nil => intro _ _; exact ⟨rfl, hg.1⟩
+  | cons v r ih =>
+    intro hv hl
+    simp only [List.length_cons] at hl
+    obtain ⟨e, p⟩ := ih (fun w hw => hv w (List.mem_cons_of_mem _ hw)) (by omega)
+    have := hg.2 1 r.length v (monoProd ratMul 1 r) (hv v List.mem_cons_self) p (by omega)
+    simp only [monoProd, List.length_cons]
+    rw [e]
+    refine ⟨this.1, ?_⟩
+    have h2 := this.2
+    rw [Nat.add_comm] at h2
+    exact h2
+
+theorem monos_graded (hg : Graded P D fmul) (xs : List Rat) (hx : ∀ v ∈ xs, P 1 v) (k : Nat) (hk : k ≤ D) :
+    monos fmul 1 k xs = monos ratMul 1 k xs ∧ ∀ y ∈ monos ratMul 1 k xs, P k y := by
+  unfold monos
+  constructor
+  · apply List.map_congr_left
+    intro c hc
+    obtain ⟨hl, hm⟩ := multichoose_sound k xs c hc
+    exact (monoProd_graded hg c (fun v hv => hx v (hm v hv)) (by omega)).1
+  · intro y hy
+    rw [List.mem_map] at hy
+    obtain ⟨c, hc, rfl⟩ := hy
+    obtain ⟨hl, hm⟩ := multichoose_sound k xs c hc
+    have := (monoProd_graded hg c (fun v hv => hx v (hm v hv)) (by omega)).2
+    rw [hl] at this
+    exact this
+
+theorem outer_graded (hg : Graded P D fmul) {a b : Nat} (hab : a + b ≤ D) :
+    ∀ (A B : List Rat), (∀ x ∈ A, P a x) → (∀ y ∈ B, P b y) →
+      outer fmul A B = outer ratMul A B ∧ ∀ z ∈ outer ratMul A B, P (a + b) z := by
+  intro A B hA hB
+  constructor
+  · unfold outer
+    apply List.flatMap_congr
+    intro x hx
+    apply List.map_congr_left
+    intro y hy
+    exact (hg.2 a b x y (hA x hx) (hB y hy) hab).1
+  · intro z hz
+    simp only [outer, List.mem_flatMap, List.mem_map] at hz
+    obtain ⟨x, hx, y, hy, rfl⟩ := hz
+    exact (hg.2 a b x y (hA x hx) (hB y hy) hab).2
+
+theorem foldl_outer_graded (hg : Graded P D fmul) (F : Char → List Rat) (hF : ∀ c, ∀ v ∈ F c, P 1 v) :
+    ∀ (cp : List (Char × Nat)) (m : Nat) (acc : List Rat), (∀ x ∈ acc, P m x) → m + (cp.map (·.2)).sum ≤ D →
+      (cp.map (fun kp => monos fmul 1 kp.2 (F kp.1))).foldl (outer fmul) acc
+        = (cp.map (fun kp => monos ratMul 1 kp.2 (F kp.1))).foldl (outer ratMul) acc := by
+  intro cp
+  induction cp with
+  | nil => intro m acc _ _; rfl
+  | cons kp cp ih =>
+    intro m acc hacc hs
+    simp only [List.map_cons, List.sum_cons] at hs
+    simp only [List.map_cons, List.foldl]
+    obtain ⟨e1, p1⟩ := monos_graded hg (F kp.1) (hF kp.1) kp.2 (by omega)
+    obtain ⟨e2, p2⟩ := outer_graded hg (a := m) (b := kp.2) (by omega) acc (monos ratMul 1 kp.2 (F kp.1)) hacc p1
+    rw [e1, e2]
+    exact ih (m + kp.2) _ p2 (by omega)
+
+theorem termS_graded (hg : Graded P D fmul) (F : Char → List Rat) (hF : ∀ c, ∀ v ∈ F c, P 1 v)
+    (t : List Char) (ht : t.length ≤ D) : termS fmul 1 F t = termS ratMul 1 F t := by
+  unfold termS
+  have hs := sum_factors t
+  cases hfac : factors t with
+  | nil => rfl
+  | cons kp cp =>
+    rw [hfac] at hs
+    simp only [List.map_cons, List.sum_cons] at hs
+    simp only [List.map_cons, outerAll]
+    obtain ⟨e1, p1⟩ := monos_graded hg (F kp.1) (hF kp.1) kp.2 (by omega)
+    rw [e1]
+    exact foldl_outer_graded hg F hF cp kp.2 _ p1 (by omega)
+
+theorem termsS_graded (hg : Graded P D fmul) (F : Char → List Rat) (hF : ∀ c, ∀ v ∈ F c, P 1 v)
+    (ts : List (List Char)) (ht : ∀ t ∈ ts, t.length ≤ D) : termsS fmul 1 F ts = termsS ratMul 1 F ts := by
+  unfold termsS
+  apply List.flatMap_congr
+  intro t h
+  exact termS_graded hg F hF t (ht t h)
+
+theorem pairs_ext : ∀ (l l' : List (String × Rat)), l.map (·.1) = l'.map (·.1) → l.map (·.2) = l'.map (·.2) → l = l' := by
+  intro l
+  induction l with
+  | nil => intro l' h _; cases l' with
+    | nil => rfl
+    | cons q l' => simp at h
+  | cons p l ih =>
+    intro l' hk hv
+    cases l' with
+    | nil => simp at hk
+    | cons q l' =>
+      simp only [List.map_cons, List.cons.injEq] at hk hv
+      rw [ih l' hk.2 hv.2]
+      congr 1
+      exact Prod.ext hk.1 hv.1
+
+/-- exact multiplication on everything that occurs ⇒ the float encoder IS the exact encoder -/
+theorem encode_graded_exact (hg : Graded P D fmul) (is : List Inter) (kw : List (Char × NsVal))
+    (hne : ∀ t ∈ strTerms is, t ≠ []) (hD : maxDeg is ≤ D)
+    (hd : ∀ c, ∀ v ∈ featsDense kw c, P 1 v) (hs : ∀ c, ∀ p ∈ featsSparse kw c, P 1 p.2) :
+    encodeG fmul Cfg.fixed is kw = encode Cfg.fixed is kw := by
+  rw [encodeG_eq_spec fmul is kw hne, encode_eq_spec' is kw hne]
+  have hterms : ∀ t ∈ dedupFirst (strTerms is), t.length ≤ D := by
+    intro t ht
+    exact le_trans (foldl_max_ge_mem (fun t : List Char => t.length) (strTerms is) 0 t ((mem_dedupFirst _ _).1 ht)) hD
+  congr 1
+  unfold encodeSG encodeS
+  have e1 : termsS fmul 1 (featsDense kw) (dedupFirst (strTerms is)) = termsS ratMul 1 (featsDense kw) (dedupFirst (strTerms is)) :=
+    termsS_graded hg _ hd _ hterms
+  have e2 : termsS (pairMulG fmul) pairOne (featsSparse kw) (dedupFirst (strTerms is))
+      = termsS pairMul pairOne (featsSparse kw) (dedupFirst (strTerms is)) := by
+    apply pairs_ext
+    · rw [termsS_map (pairMulG fmul) pairOne strMul "" (·.1) (fun _ _ => rfl) rfl,
+          termsS_map pairMul pairOne strMul "" (·.1) (fun _ _ => rfl) rfl]
+    · rw [termsS_map (pairMulG fmul) pairOne fmul 1 (·.2) (fun _ _ => rfl) rfl,
+          termsS_map pairMul pairOne ratMul 1 (·.2) (fun _ _ => rfl) rfl]
+      apply termsS_graded hg _ _ _ hterms
+      intro c v hv
+      rw [List.mem_map] at hv
+      obtain ⟨p, hp, rfl⟩ := hv
+      exact hs c p hp
+  simp only [e1, e2]
+end
+
+/-! ## Part 11b (phase 3): dyadic numbers -/
+
+/-- `x = m·2^e` with `|m| ≤ M`, `|e| ≤ E` -/
+def Dy (M E : Nat) (x : Rat) : Prop :=
+  ∃ m e : Int, |m| ≤ (M : Int) ∧ |e| ≤ (E : Int) ∧ x = (m : Rat) * (2 : Rat) ^ e
+
+/-- what correct rounding guarantees: a product that is itself a double (53-bit significand,
+exponent within ±970 so that no under/overflow is near) is returned exactly -/
+def ExactOn (fmul : Rat → Rat → Rat) : Prop :=
+  ∀ a b, Dy (2 ^ 53) 970 (a * b) → fmul a b = a * b
+
+theorem dy_one (M E : Nat) (hM : 1 ≤ M) : Dy M E 1 :=
+  ⟨1, 0, by simpa using hM, by simp, by simp⟩
+
+theorem dy_mul {M1 E1 M2 E2 : Nat} {x y : Rat} (hx : Dy M1 E1 x) (hy : Dy M2 E2 y) :
+    Dy (M1 * M2) (E1 + E2) (x * y) := by
+  obtain ⟨m, e, hm, he, rfl⟩ := hx
+  obtain ⟨n, f, hn, hf, rfl⟩ := hy
+  refine ⟨m * n, e + f, ?_, ?_, ?_⟩
+  · rw [abs_mul]; push_cast
+    exact mul_le_mul hm hn (abs_nonneg _) (by exact_mod_cast Nat.zero_le M1)
+  · push_cast; exact le_trans (abs_add_le e f) (add_le_add he hf)
+  · rw [zpow_add₀ (by norm_num : (2 : Rat) ≠ 0)]; push_cast; ring
+
+theorem dy_mono {M E M' E' : Nat} (hM : M ≤ M') (hE : E ≤ E') {x : Rat} (h : Dy M E x) : Dy M' E' x := by
+  obtain ⟨m, e, hm, he, rfl⟩ := h
+  exact ⟨m, e, le_trans hm (by exact_mod_cast hM), le_trans he (by exact_mod_cast hE), rfl⟩
+
+theorem graded_of_exactOn {fmul : Rat → Rat → Rat} (hf : ExactOn fmul) (M E D : Nat) (hM : 1 ≤ M)
+    (hb : M ^ D ≤ 2 ^ 53) (he : D * E ≤ 970) :
+    Graded (fun k x => Dy (M ^ k) (k * E) x) D fmul := by
+  refine ⟨by simpa using dy_one 1 0 (le_refl 1), ?_⟩
+  intro a b x y hx hy hab
+  have hp : Dy (M ^ (a + b)) ((a + b) * E) (x * y) := by
+    have := dy_mul hx hy
+    rw [← pow_add, ← Nat.add_mul] at this
+    exact this
+  refine ⟨hf x y (dy_mono (le_trans (Nat.pow_le_pow_right hM hab) hb) (le_trans (Nat.mul_le_mul_right E hab) he) hp), hp⟩
+
+
+theorem encode_float_exact_dyadic' {fmul : Rat → Rat → Rat} (hf : ExactOn fmul) (M E : Nat) (hM : 1 ≤ M)
+    (is : List Inter) (kw : List (Char × NsVal)) (hne : ∀ t ∈ strTerms is, t ≠ [])
+    (hb : M ^ maxDeg is ≤ 2 ^ 53) (he : maxDeg is * E ≤ 970)
+    (hd : ∀ c, ∀ v ∈ featsDense kw c, Dy M E v) (hs : ∀ c, ∀ p ∈ featsSparse kw c, Dy M E p.2) :
+    encodeG fmul Cfg.fixed is kw = encode Cfg.fixed is kw := by
+  apply encode_graded_exact (graded_of_exactOn hf M E (maxDeg is) hM hb he) is kw hne (le_refl _)
+  · intro c v hv; simpa using hd c v hv
+  · intro c p hp; simpa using hs c p hp
+
+theorem exactOn_ratMul : ExactOn ratMul := fun _ _ _ => rfl
+
+theorem dyadic_example :
+    (∀ c, ∀ v ∈ featsDense [('x', .dense [.num (3 / 2), .num (11 / 4)])] c, Dy 11 2 v)
+    ∧ (∀ c, ∀ p ∈ featsSparse [('x', .dense [.num (3 / 2), .num (11 / 4)])] c, Dy 11 2 p.2)
+    ∧ 11 ^ maxDeg [.term ['x', 'x', 'x']] ≤ 2 ^ 53 ∧ maxDeg [.term ['x', 'x', 'x']] * 2 ≤ 970 := by
+  have h1 : Dy 11 2 (3 / 2) := ⟨3, -1, by norm_num, by norm_num, by norm_num⟩
+  have h2 : Dy 11 2 (11 / 4) := ⟨11, -2, by norm_num, by norm_num, by norm_num⟩
+  refine ⟨?_, ?_, by decide, by decide⟩
+  · intro c v hv
+    by_cases h : 'x' = c
+    · subst h
+      have : featsDense [('x', .dense [.num (3 / 2), .num (11 / 4)])] 'x' = [3 / 2, 11 / 4] := by decide +kernel
+      rw [this] at hv
+      simp at hv
+      rcases hv with rfl | rfl <;> assumption
+    · simp [featsDense, nsVal, dictGet, h, denseVals] at hv
+  · intro c p hp
+    by_cases h : 'x' = c
+    · subst h
+      have : featsSparse [('x', .dense [.num (3 / 2), .num (11 / 4)])] 'x' = [("x0", 3 / 2), ("x1", 11 / 4)] := by decide +kernel
+      rw [this] at hp
+      simp at hp
+      rcases hp with rfl | rfl <;> assumption
+    · simp [featsSparse, nsVal, dictGet, h, sparseFeats_none] at hp
+
+
+/-! ## Part 12 (phase 3): order of the term list; argument shapes -/
+theorem termsS_perm {α : Type} (mul : α → α → α) (one : α) (F : Char → List α) {ts ts' : List (List Char)}
+    (h : ts.Perm ts') : (termsS mul one F ts).Perm (termsS mul one F ts') := by
+  unfold termsS
+  exact h.flatMap_right _
+
+theorem linear_score_perm (l l' : List (Rat × Rat)) (h : l.Perm l') :
+    (l.map (fun p => p.1 * p.2)).sum = (l'.map (fun p => p.1 * p.2)).sum :=
+  (h.map _).sum_eq
+
+theorem named_score_order_invariant (w : String → Rat) (F : Char → List (String × Rat)) {ts ts' : List (List Char)}
+    (h : ts.Perm ts') :
+    ((termsS pairMul pairOne F ts).map (fun kv => w kv.1 * kv.2)).sum
+      = ((termsS pairMul pairOne F ts').map (fun kv => w kv.1 * kv.2)).sum :=
+  ((termsS_perm pairMul pairOne F h).map _).sum_eq
+
+theorem normalise_wrapStr (s : Shape) : normalise [Norm.wrapStr] s = s.meaning := by cases s <;> rfl
+theorem normalise_asIs_wrapStr (s : Shape) : normalise [Norm.asIs, Norm.wrapStr] s = s.meaning := by cases s <;> rfl
+theorem normalise_asIs_seq (ts : List Inter) :
+    normalise [Norm.asIs] (.list ts) = ts ∧ normalise [Norm.asIs] (.tuple ts) = ts := ⟨rfl, rfl⟩
+/-- the shape of round d's seeded change: `list(...)` before the constructor splits a bare str -/
+theorem normalise_listOf_splits : normalise [Norm.listOf, Norm.wrapStr] (.str ['x', 'a']) ≠ (Shape.str ['x', 'a']).meaning := by decide
 
 end Coba.C20
